@@ -21,7 +21,7 @@ RULE = (
     "records; plus the independent schema validator and a before/after listing of the temp directory. "
     "Non-trivial = >=2 non-empty chunks, >=1 pixel present in >=2 chunks, and (mergebuf < number of records in "
     "the fullest row, or more chunks than max_merge). Distinct by sha1 of the canonical case."
-    " Also: optional input checks switched off; a `cooler load` part (text chunks of --chunksize lines, --mergebuf, --max-merge, --temp-dir listing); a 'fresh process' part that runs the first and second create_cooler(ordered=False) of a new interpreter in a subprocess."
+    " Also: value columns without 'count'; chunks of explicitly stored zeros; the chunk sequence as iterator, list or tuple; chunks that are consecutive overlapping slices of the sorted pixel list, delivered in order; optional input checks switched off; a `cooler load` part (text chunks of --chunksize lines, --mergebuf, --max-merge, --temp-dir listing); a 'fresh process' part that runs the first and second create_cooler(ordered=False) of a new interpreter in a subprocess."
 )
 ASSUMPTIONS = [
     "each chunk is free of duplicate pixels (dupcheck default) and upper-triangular in symmetric mode",
@@ -41,7 +41,7 @@ def cases(draw, max_chroms=3, max_bins=5, max_chunks=9):
                     "int64": st.one_of(st.integers(1, 50), st.integers(2**31, 2**40))}[count_dtype]
     chunks = []
     for _ in range(k):
-        kind = draw(st.sampled_from(["some", "some", "some", "all", "none"]))
+        kind = draw(st.sampled_from(["some", "some", "some", "all", "none", "zeros"]))
         if kind == "none" or not coords:
             chunks.append([])
             continue
@@ -51,6 +51,9 @@ def cases(draw, max_chroms=3, max_bins=5, max_chunks=9):
             mask = draw(st.lists(st.booleans(), min_size=len(coords), max_size=len(coords)))
             sel = [c for c, m in zip(coords, mask) if m]
         vals = draw(st.lists(st.tuples(count_values, gen.DYADIC), min_size=len(sel), max_size=len(sel)))
+        if kind == "zeros":
+            # a chunk of explicitly stored zeros (its counts add up to nothing; its pixels still exist)
+            vals = [(0 if count_dtype != "float64" else 0.0, v[1]) for v in vals]
         chunks.append([[c[0], c[1], v[0], v[1]] for c, v in zip(sel, vals)])
     ensure_sorted = draw(st.booleans())
     return {"part": "unordered", "bt": bt, "symmetric": symmetric, "chunks": chunks,
@@ -61,8 +64,12 @@ def cases(draw, max_chroms=3, max_bins=5, max_chunks=9):
             "checks_off": draw(st.sampled_from([[], [], [], ["boundscheck", "triucheck", "dupcheck"], ["dupcheck"], ["boundscheck", "dupcheck"], ["triucheck"]])),
             "mergebuf": draw(st.sampled_from([1, 2, 3, 5, 10, 10**6])),
             "max_merge": draw(st.sampled_from([1, 2, 3, 200])),
-            "cols": draw(st.sampled_from([["count"], ["count", "x"]])),
+            "cols": draw(st.sampled_from([["count"], ["count", "x"], ["x"]])),
             "form": draw(st.sampled_from(["frame", "dict"])),
+            # the chunk sequence as a one-shot iterator, or as a list / tuple
+            "container": draw(st.sampled_from(["iter", "iter", "list", "tuple"])),
+            # chain: the chunks are consecutive slices of the sorted pixel list that OVERLAP by one pixel, delivered in order
+            "chain": draw(st.integers(0, 5)) == 0,
             "temp": draw(st.sampled_from(["default", "default", "explicit"])),
             "dest": draw(st.sampled_from(["", "::/g"])),
             # extra bin columns must arrive in the output; row labels of the chunk frames carry no meaning (repeated
@@ -84,6 +91,12 @@ def check_unordered(case, ctx: Ctx):
     chunks = [list(c) for c in case["chunks"]]
     order = rng.permutation(len(chunks)).tolist()
     chunks = [chunks[t] for t in order]
+    if case.get("chain"):
+        allrows = sorted({(r[0], r[1]): r for c in case["chunks"] for r in c}.values())
+        k_ = max(1, len(case["chunks"]))
+        step = max(1, len(allrows) // k_)
+        chunks = [allrows[a:a + step + 1] for a in range(0, max(1, len(allrows) - 1), step)] if allrows else [[]]
+        case = dict(case, chunks=chunks, shuffle_within="none")
     if case["shuffle_within"] in (True, "full"):
         chunks = [[c[t] for t in rng.permutation(len(c)).tolist()] for c in chunks]
     elif case["shuffle_within"] == "within-rows":
@@ -120,7 +133,7 @@ def check_unordered(case, ctx: Ctx):
     uri = path + case["dest"]
     if cols != ["count"]:
         kw["columns"] = list(cols)
-    if cdt != "int32":
+    if cdt != "int32" and "count" in cols:
         kw["dtypes"] = {"count": np.dtype(cdt)}
     for flag in case.get("checks_off", []):
         if flag != "triucheck" or symmetric:
@@ -128,7 +141,7 @@ def check_unordered(case, ctx: Ctx):
     try:
         before = sorted(os.listdir(tdir))
         call("create_cooler(ordered=False)", cooler.create_cooler, uri, gen.bins_df(bt, extra=extra),
-             iter([to_input(c) for c in chunks]), ordered=False, symmetric_upper=symmetric,
+             {"iter": iter, "list": list, "tuple": tuple}[case.get("container", "iter")]([to_input(c) for c in chunks]), ordered=False, symmetric_upper=symmetric,
              mergebuf=case["mergebuf"], max_merge=case["max_merge"], ensure_sorted=case["ensure_sorted"],
              h5opts={"compression": None}, **kw)
         after = sorted(x for x in os.listdir(tdir) if os.path.join(tdir, x) != path)
@@ -140,9 +153,12 @@ def check_unordered(case, ctx: Ctx):
         got_ids = list(zip(df["bin1_id"].tolist(), df["bin2_id"].tolist()))
         check(got_ids == [(r[0], r[1]) for r in want],
               lambda: f"pixel set differs from in-memory aggregation: got {got_ids[:8]} want {[(r[0], r[1]) for r in want][:8]}")
-        check(str(df["count"].dtype) == cdt, f"count stored as {df['count'].dtype}, requested {cdt}")
-        check(df["count"].tolist() == [r[2] for r in want],
-              lambda: f"counts differ: got {df['count'].tolist()[:8]} want {[r[2] for r in want][:8]}")
+        if "count" in cols:
+            check(str(df["count"].dtype) == cdt, f"count stored as {df['count'].dtype}, requested {cdt}")
+            check(df["count"].tolist() == [r[2] for r in want],
+                  lambda: f"counts differ: got {df['count'].tolist()[:8]} want {[r[2] for r in want][:8]}")
+        else:
+            check("count" not in df.columns, "unrequested column stored")
         if "x" in cols:
             check(df["x"].tolist() == [r[3] for r in want], "x column differs from the per-pixel sum")
         else:
@@ -150,7 +166,8 @@ def check_unordered(case, ctx: Ctx):
         with h5py.File(path, "r") as f:
             probs = schema.validate(f["/g" if case["dest"] else "/"])
         check(not probs, lambda: f"output violates the schema: {probs[:3]}")
-        check(clr.info["sum"] == sum(r[2] for r in want), f"sum attribute {clr.info['sum']}")
+        if "count" in cols:
+            check(clr.info["sum"] == sum(r[2] for r in want), f"sum attribute {clr.info['sum']}")
         check(model.read_bins(clr) == model.bins_rows(bt), "bin table of the output differs from the one given")
         bdf = clr.bins()[:]
         for k_, v_ in (extra or {}).items():
@@ -176,7 +193,7 @@ def check_unordered(case, ctx: Ctx):
                           "emptychunk" if len(nonempty) < len(case["chunks"]) else "no-emptychunk",
                           f"mergebuf={case['mergebuf']}", "sym" if symmetric else "square",
                           "ensure_sorted" if case["ensure_sorted"] else "presorted", "shuffle=" + str(case["shuffle_within"]),
-                          "count=" + cdt, "bins-extra=" + str(case.get("bins_extra")), "labels=" + case.get("index_kind", "range"), "checks-off=" + ("+".join(case.get("checks_off", [])) or "none")])
+                          "count=" + cdt, "bins-extra=" + str(case.get("bins_extra")), "cols=" + "+".join(cols), "container=" + case.get("container", "iter"), "chain" if case.get("chain") else "dealt", "labels=" + case.get("index_kind", "range"), "checks-off=" + ("+".join(case.get("checks_off", [])) or "none")])
 
 
 def check_big(case, ctx: Ctx):
